@@ -20,6 +20,6 @@ The change should look like something a developer could plausibly write (a refac
 
 Also write a demonstration: a small standalone Python program {wt}/demo_{pid}.py that exits 0 (prints PASS) on the ORIGINAL code and exits 1 (prints FAIL and what went wrong) on your changed code. The demo must test the behaviour stated in the property (through TatSu's public API where possible), not the presence of your edit. Note: in grammars at this commit, separate rules by a blank line.
 
-Steps: 1. read the relevant code; 2. first write the demo and confirm it passes on the unmodified worktree (`git stash` is fine for comparing); 3. make the change; 4. confirm the demo now fails; 5. run /tmp/seedtools/check_baseline.sh and make sure it reports missing=0 - if baseline tests break, pick a different change; 6. write the final diff with `cd {wt} && git diff -- tatsu > {wt}/patch.diff`.
+Steps: 1. read the relevant code; 2. first write the demo and confirm it passes on the unmodified worktree (NEVER use `git stash` - the stash is shared with other worktrees; to compare with the original save your change with `git diff -- tatsu > {wt}/mychange.diff`, run `git checkout -- tatsu`, and re-apply with `git apply {wt}/mychange.diff`); 3. make the change; 4. confirm the demo now fails; 5. run /tmp/seedtools/check_baseline.sh and make sure it reports missing=0 - if baseline tests break, pick a different change; 6. write the final diff with `cd {wt} && git diff -- tatsu > {wt}/patch.diff`.
 
 Final answer (plain text): the path of patch.diff and of the demo, a 3-5 line description of the change, which clause of the property it breaks, and exactly what is needed for it to manifest. Leave the worktree with your change applied.""")
